@@ -83,9 +83,13 @@ impl<O: Clone + PartialEq, A: HasVar + Clone + PartialEq> Functor<O, A, O, A> fo
 
 // Are all elements of both lists equal? (not pairwise- equivalent to reduce(equal, concat(s, t)))
 fn all_elements_equal<T: PartialEq>(a: &[T], b: &[T]) -> bool {
-    a.iter()
-        .chain(b.iter())
-        .all(|x| *x == *a.first().unwrap_or(x))
+    // compare everything with the first element of the concatenated list
+    // (not of `a`: when `a` is empty every element would only be compared with itself)
+    let mut elements = a.iter().chain(b.iter());
+    match elements.next() {
+        None => true,
+        Some(first) => elements.all(|x| *x == *first),
+    }
 }
 
 // not public: no use for this except via forget_monogamous
